@@ -17,7 +17,7 @@ from catalogue import mps_factory as F
 PROPERTY = 'C09'
 LEVEL = 'model_checking'
 BOUNDS = {
-    'quick': 'canonical_form is stubbed (recording stub / no-op) wherever a routine ends with it; L<=3 (infinite: unit cell 2, window of 2 cells), chi<=2 (one chi=3 bond), SpinHalfSite(None,Sz), FermionSite(None,N), '
+    'quick': 'apply_local_term with odd fermionic terms in every order of positions on FermionSite(parity) L=3,4 (thorough: all operator triples, FermionSite(N) L=4); canonical_form is stubbed (recording stub / no-op) wherever a routine ends with it; L<=3 (infinite: unit cell 2, window of 2 cells), chi<=2 (one chi=3 bond), SpinHalfSite(None,Sz), FermionSite(None,N), '
              'stored forms B, A and mixed, every site index / shift / segment chosen by a symbolic selector',
     'thorough': 'L=4 chi 1,2,3,2,1, SpinHalfFermionSite(N,Sz), unit cell 3, group_sites(n=3)',
 }
@@ -418,6 +418,27 @@ def CASES(tier, seed):
             o['branch_timeout_ms'] = 1500
         cases.append(dict(name=name, fn=fn, params=prm, opts=o))
 
+    # apply_local_term with an odd number of fermionic operators listed in EVERY order of positions: the string to the left of
+    # the left-most site is represented through the virtual charges (N or parity conservation)
+    import itertools
+    odd_geoms = [dict(kind='fermP', L=3, chis=[1, 2, 2, 1], bc='finite'), dict(kind='fermP', L=4, chis=[1, 2, 2, 2, 1], bc='finite'),
+                 dict(kind='fermN', L=4, chis=[1, 2, 3, 2, 1], bc='finite', variant=1)]
+    for g in odd_geoms:
+        L = g['L']
+        if L == 4 and g['kind'] == 'fermN' and not thorough:
+            continue  # sized by CPU time (each term forks on `norm < 1e-12` per site)
+        sels = (('Cd', 'N'), ('C', 'dN'), ('Cd', 'C', 'Cd'), ('C', 'Cd', 'N'), ('C', 'C', 'Cd'))
+        if L == 4 and not thorough:
+            sels = (('Cd', 'N'), ('Cd', 'C', 'Cd'))
+        terms = []
+        for opsel in sels:
+            for pos in itertools.permutations(range(L), len(opsel)):
+                terms.append([(o, q) for o, q in zip(opsel, pos)])
+        for forms in ('B', (['A', 'B', 'Th', 'C'] * 2)[:L]):
+            if L == 4 and forms != 'B' and not thorough:
+                continue
+            add(f"apply_local_term.odd_unsorted[forms={'B' if forms == 'B' else 'mixed'}][{_gname(g)}]", 'apply_op_case', g, mode='term', terms=terms, forms=forms)
+            cases[-1]['opts']['branch_timeout_ms'] = 600
     for g in _geoms(tier):
         gn = _gname(g)
         kind, L, bc = g['kind'], g['L'], g['bc']
